@@ -443,6 +443,45 @@ class ModelWorld(engine.World):
       B = max(B, b)
     return B
 
+  def _noise_amplification(self):
+    """Extra tolerance for order comparisons: float32 noise in a computed
+    value (a lattice output) is amplified by a steep downstream PWL calibrator
+    (learned keypoints can make a piece 1e-6 wide, or a step). The amplified
+    noise is at most the calibrator's total variation."""
+    tfl, keras = self.tfl, self.keras
+    extra = 0.0
+    B = 1.0
+    for layer in self._all_layers():
+      if isinstance(layer, tfl.layers.PWLCalibration):
+        fed_by_input = True
+        try:
+          for node in layer.inbound_nodes:
+            inb = node.inbound_layers
+            inb = inb if isinstance(inb, (list, tuple)) else [inb]
+            if any(not isinstance(l, keras.layers.InputLayer) for l in inb):
+              fed_by_input = False
+        except Exception:  # pylint: disable=broad-except
+          fed_by_input = False
+        k = layer.kernel.numpy().astype(np.float64)
+        h = np.abs(k[1:])
+        if not fed_by_input and h.size:
+          if layer.input_keypoints_type == "learned_interior":
+            lg = layer.interpolation_logits.numpy().astype(np.float64)
+            e = np.exp(lg - lg.max(axis=1, keepdims=True))
+            kps = np.asarray(layer.input_keypoints, dtype=np.float64)
+            lens = (e / e.sum(axis=1, keepdims=True)).T * (kps[-1] - kps[0])
+          else:
+            kps = np.asarray(layer.input_keypoints, dtype=np.float64)
+            lens = np.diff(kps)[:, None]
+          lens = np.broadcast_to(lens, h.shape) if lens.shape != h.shape else lens
+          slope = float(np.max(h / np.maximum(lens, 1e-30)))
+          noise_in = 4e-7 * (1.0 + B)
+          extra += min(slope * noise_in, float(np.max(np.sum(h, axis=0))))
+        B = max(B, float(np.max(np.sum(np.abs(k), axis=0))))
+      elif isinstance(layer, tfl.layers.Lattice):
+        B = max(B, float(np.max(np.abs(layer.kernel.numpy()))))
+    return extra
+
   # ---------------------------------------------------------------- events
   def apply(self, ev, ctx):
     self.ctx = ctx
@@ -689,7 +728,7 @@ class ModelWorld(engine.World):
 
   def _ev_checkpoint(self, ev, ctx):
     fmt = ev["fmt"]
-    if fmt == "weights_v3" and self.compiled:
+    if fmt in ("weights_v3", "weights_tf") and self.compiled:
       # Keras' own v3 weights files also hold compile-time metric variables and
       # only load into an identically compiled model; not a tfl concern.
       fmt = "weights_h5"
@@ -973,13 +1012,14 @@ class ModelWorld(engine.World):
                 "x": [c[r, 0] for c in inputs],
             }, margin=worst, tol=tol,
             conditions=conds_common + self._bounds_conditions()))
+    order_tol = tol + self._noise_amplification()
     for kind, j, off, g, info in plan:
       seg = y[off:off + n_base * g].reshape(n_base, g, -1)
       d = seg[:, 1:, :] - seg[:, :-1, :]
       f = self.feats[j]
       sign = f["direction"] if kind == "line" else 1
       worst = float(-np.min(sign * d))
-      if worst > tol:
+      if worst > order_tol:
         i, k, u = np.unravel_index(np.argmin(sign * d), d.shape)
         r0 = off + i * g + k
         conds = list(conds_common)
@@ -998,7 +1038,7 @@ class ModelWorld(engine.World):
                 "f_lo": seg[i, k, u],
                 "f_hi": seg[i, k + 1, u],
                 "pair": info if kind == "pair" else None,
-            }, margin=worst, tol=tol, conditions=conds))
+            }, margin=worst, tol=order_tol, conditions=conds))
         break
     return out
 
